@@ -137,6 +137,10 @@ def make_traj(md, case):
         if case['seed'] % 3 == 0:
             A = np.tile(np.array([80.0, 95.0, 105.0], dtype=np.float32), (case['n_frames'], 1))
             A[:, 0] += (np.arange(case['n_frames']) % 4).astype(np.float32)
+        elif case['seed'] % 3 == 2:
+            # cell shape changes along the trajectory: orthorhombic frames (the first one among them) and triclinic frames
+            tri = (np.arange(case['n_frames']) % 2 == 1)
+            A[tri] = np.array([75.0, 100.0, 110.0], dtype=np.float32)
     return {'xyz': xyz.astype(np.float32), 'top': t.topology, 'L': L, 'A': A}
 
 
